@@ -53,7 +53,7 @@ fn strategy(tier: Tier) -> BoxedStrategy<PowerCase> {
         OpWeights {
             set: 10,
             get: 0,
-            del: 0,
+            del: 4,
             merge: 4,
             reopen: 2,
         },
@@ -62,7 +62,7 @@ fn strategy(tier: Tier) -> BoxedStrategy<PowerCase> {
         40,
     );
     (
-        prop_oneof![3 => with_merges, 2 => without, 1 => partial],
+        prop_oneof![3 => with_merges, 2 => without, 2 => partial],
         proptest::collection::vec(
             op_strategy(
                 OpWeights {
@@ -181,7 +181,7 @@ pub fn prop() -> Prop<PowerCase> {
         rule: "Workloads as in C03 but under sync=always (two generator variants: with and without merges) run once under the LD_PRELOAD recorder, which also tracks fsync per file. For EVERY boundary k between two recorded calls the power-loss states are materialised: (i) every file cut back to its length at its last completed fsync (the worst case of the property's model), and (ii) two states in which each file independently keeps a generated length between its synced and its current length; creations and unlinks issued before k are kept. Each state is recovered; reads must equal the model after the ops that had returned (their fsync included), optionally plus the op in flight; recovery is repeated and generated post ops must still agree. evaluations = failure states recovered. Non-trivial: a state in which at least one file loses bytes and the prefix contains a rollover or a merge; distinct = (workload hash, k, variant).",
         assumptions: &[
             "failure model exactly as the property states it: per file independently any suffix written after that file's last completed fsync may be missing; file creations and removals already issued are persistent",
-            "merges use thresholds that make every non-empty file eligible, except in a sixth of the workloads, which are delete-free under arbitrary thresholds (the known finding D2 of C05 needs a tombstone)",
+            "most merges use thresholds that make every non-empty file eligible; two workloads in seven use arbitrary thresholds (merges of arbitrary subsets of files)",
         ],
         needs_shim: true,
         budget: |t| t.pick(3200, 40000),
